@@ -429,36 +429,45 @@ static int sch_ers(sess_t *s) {
 /* ---- multi-key linearly homomorphic signatures: 2 signers x 2 labels, evaluator combines ---- */
 static int sch_mklhs(sess_t *s) {
 	static const char *data = "database-identifier";
-	static const char *id[2] = { "Alice", "Bob" };
-	static const char *tags[2] = { "l0", "l1" };
+	static const char *id[3] = { "Alice", "Bob", "Carol-with-a-longer-name" };
+	static const char *tags[3] = { "l0", "l1", "label-two" };
+	/* opt k: number of signers 1..3, opt n: number of labels 1..3 (the verifier's scratch arrays are sized from both) */
+	int ns = 1 + (int)(s->opt[4] % 3), nl = 1 + (int)(s->opt[5] % 3);
+	static g1_t msig[NSESS][9];
+	static bn_t mmsg[NSESS][9];
+	static int ready = 0;
+	char name[8];
+	if (!ready) {
+		for (int a = 0; a < NSESS; a++) { for (int b = 0; b < 9; b++) { g1_null(msig[a][b]); g1_new(msig[a][b]); bn_null(mmsg[a][b]); bn_new(mmsg[a][b]); } }
+		ready = 1;
+	}
 	switch (s->phase) {
 		case 0:
-			/* sk b[0..1], pk g2[0..1] */
-			for (int j = 0; j < 2; j++) { log_rc(s, "gen", cp_mklhs_gen(s->b[j], s->g2[j])); }
+			/* sk b[0..2], pk g2[0..2] */
+			for (int j = 0; j < ns; j++) { log_rc(s, "gen", cp_mklhs_gen(s->b[j], s->g2[j])); }
 			return 1;
 		case 1:
-			/* messages b[2 + 2j + l], signatures g1[2j + l] */
-			for (int j = 0; j < 2; j++) {
-				for (int l = 0; l < 2; l++) {
-					bn_rand_mod(s->b[2 + 2 * j + l], ord);
-					log_rc(s, "sig", cp_mklhs_sig(s->g1[2 * j + l], s->b[2 + 2 * j + l], data, id[j], tags[l], s->b[j]));
+			for (int j = 0; j < ns; j++) {
+				for (int l = 0; l < nl; l++) {
+					bn_rand_mod(mmsg[s->sid][3 * j + l], ord);
+					log_rc(s, "sig", cp_mklhs_sig(msig[s->sid][3 * j + l], mmsg[s->sid][3 * j + l], data, id[j], tags[l], s->b[j]));
 				}
 			}
 			return 1;
 		case 2: {
-			/* evaluator: coefficients from the plan; mu_j b[6 + j], combined signature g1[4], combined message b[8] */
-			dig_t f[2][2];
-			for (int j = 0; j < 2; j++) { for (int l = 0; l < 2; l++) { f[j][l] = (dig_t)(1 + ((s->opt[7] >> (4 * (2 * j + l))) & 15)); } }
+			/* evaluator: coefficients from the plan; mu_j b[6 + j], combined signature g1[4], combined message b[10] */
+			dig_t f[3][3];
+			for (int j = 0; j < 3; j++) { for (int l = 0; l < 3; l++) { f[j][l] = (dig_t)(1 + ((s->opt[7] >> ((3 * j + l) % 16)) & 15)); } }
 			g1_set_infty(s->g1[4]);
-			bn_zero(s->b[8]);
-			for (int j = 0; j < 2; j++) {
-				log_rc(s, "fun", cp_mklhs_fun(s->b[6 + j], (const bn_t *)(s->b + 2 + 2 * j), f[j], 2));
-				log_rc(s, "evl", cp_mklhs_evl(s->g1[5], (const g1_t *)(s->g1 + 2 * j), f[j], 2));
+			bn_zero(s->b[10]);
+			for (int j = 0; j < ns; j++) {
+				log_rc(s, "fun", cp_mklhs_fun(s->b[6 + j], (const bn_t *)(mmsg[s->sid] + 3 * j), f[j], (size_t)nl));
+				log_rc(s, "evl", cp_mklhs_evl(s->g1[5], (const g1_t *)(msig[s->sid] + 3 * j), f[j], (size_t)nl));
 				g1_add(s->g1[4], s->g1[4], s->g1[5]);
-				for (int l = 0; l < 2; l++) {
-					bn_mul_dig(s->b[9], s->b[2 + 2 * j + l], f[j][l]);
-					bn_add(s->b[8], s->b[8], s->b[9]);
-					bn_mod(s->b[8], s->b[8], ord);
+				for (int l = 0; l < nl; l++) {
+					bn_mul_dig(s->b[11], mmsg[s->sid][3 * j + l], f[j][l]);
+					bn_add(s->b[10], s->b[10], s->b[11]);
+					bn_mod(s->b[10], s->b[10], ord);
 				}
 			}
 			g1_norm(s->g1[4], s->g1[4]);
@@ -466,30 +475,30 @@ static int sch_mklhs(sess_t *s) {
 		}
 		case 3: {
 			int ok = 1;
-			ok &= xmit_g2(s, "pk0", s->g2[5], s->g2[0], (int)s->opt[1]);
-			ok &= xmit_g2(s, "pk1", s->g2[6], s->g2[1], (int)s->opt[1]);
+			for (int j = 0; j < ns; j++) {
+				snprintf(name, sizeof(name), "pk%d", j); ok &= xmit_g2(s, name, s->g2[5 + j], s->g2[j], (int)s->opt[1]);
+				snprintf(name, sizeof(name), "mu%d", j); ok &= xmit_bn(s, name, s->b[13 + j], s->b[6 + j], 0);
+			}
 			ok &= xmit_g1(s, "sig", s->g1[6], s->g1[4], (int)s->opt[1]);
-			ok &= xmit_bn(s, "m", s->b[12], s->b[8], 0);
-			ok &= xmit_bn(s, "mu0", s->b[13], s->b[6], 0);
-			ok &= xmit_bn(s, "mu1", s->b[14], s->b[7], 0);
+			ok &= xmit_bn(s, "m", s->b[12], s->b[10], 0);
 			s->flag[0] = ok;
 			return 1;
 		}
 		case 4:
 			if (s->flag[0]) {
-				dig_t f[2][2], ft[2];
-				const dig_t *fp[2] = { f[0], f[1] };
-				size_t flen[2] = { 2, 2 };
-				g1_t h[2];
-				for (int j = 0; j < 2; j++) { for (int l = 0; l < 2; l++) { f[j][l] = (dig_t)(1 + ((s->opt[7] >> (4 * (2 * j + l))) & 15)); } }
-				int v1 = cp_mklhs_ver(s->g1[6], s->b[12], (const bn_t *)(s->b + 13), data, id, tags, fp, flen, (const g2_t *)(s->g2 + 5), 2) == 1;
+				dig_t f[3][3], ft[3];
+				const dig_t *fp[3] = { f[0], f[1], f[2] };
+				size_t flen[3] = { (size_t)nl, (size_t)nl, (size_t)nl };
+				g1_t h[3];
+				for (int j = 0; j < 3; j++) { for (int l = 0; l < 3; l++) { f[j][l] = (dig_t)(1 + ((s->opt[7] >> ((3 * j + l) % 16)) & 15)); } }
+				int v1 = cp_mklhs_ver(s->g1[6], s->b[12], (const bn_t *)(s->b + 13), data, id, tags, fp, flen, (const g2_t *)(s->g2 + 5), (size_t)ns) == 1;
 				log_ver(s, "ver", v1);
 				/* offline/online verification must agree with plain verification */
-				for (int j = 0; j < 2; j++) { g1_null(h[j]); g1_new(h[j]); }
-				cp_mklhs_off(h, ft, id, tags, fp, flen, 2);
-				int v2 = cp_mklhs_onv(s->g1[6], s->b[12], (const bn_t *)(s->b + 13), data, id, (const g1_t *)h, ft, (const g2_t *)(s->g2 + 5), 2) == 1;
+				for (int j = 0; j < 3; j++) { g1_null(h[j]); g1_new(h[j]); }
+				cp_mklhs_off(h, ft, id, tags, fp, flen, (size_t)ns);
+				int v2 = cp_mklhs_onv(s->g1[6], s->b[12], (const bn_t *)(s->b + 13), data, id, (const g1_t *)h, ft, (const g2_t *)(s->g2 + 5), (size_t)ns) == 1;
 				log_ver(s, "onv", v2);
-				for (int j = 0; j < 2; j++) { g1_free(h[j]); }
+				for (int j = 0; j < 3; j++) { g1_free(h[j]); }
 			} else tr_printf("VER %d ver decode-failed\n", s->sid);
 			return 0;
 	}
